@@ -68,6 +68,111 @@ def canary_c06():
     return [] if r["nviol"] else ["c06 canary (early opening) not flagged"]
 
 
+def canary_c07():
+    """A breaker that forgets the probe flag in half-open must diverge from the reference."""
+    from redress.circuit import CircuitBreaker, _BreakerDecision
+
+    from . import statebfs
+
+    orig = CircuitBreaker.allow
+
+    def bad_allow(self):
+        d = orig(self)
+        if d.allowed and d.state.value == "half_open" and d.event is None:
+            self._probe_in_flight = False
+        return d
+
+    CircuitBreaker.allow = bad_allow
+    try:
+        cfg = {"threshold": 1, "window": 4, "recovery": 2, "class_thresholds": {}, "trip_on": ["T"]}
+        r = statebfs.bfs_identity(cfg, 7, 2)
+    finally:
+        CircuitBreaker.allow = orig
+    del _BreakerDecision
+    return [] if r["viol_keys"].get("c07.diverges") or r["viol_keys"].get("c07.admission") \
+        else ["c07 canary (probe flag forgotten) not flagged"]
+
+
+def canary_c10():
+    """A budget that prunes with a doubled window must diverge from the reference."""
+    from redress.budget import Budget
+
+    from . import statebfs
+
+    orig = Budget._prune
+
+    def bad_prune(self, now):
+        cutoff = now - 2 * self.window_s
+        while self._events and self._events[0] <= cutoff:
+            self._events.popleft()
+
+    Budget._prune = bad_prune
+    try:
+        r = statebfs.bfs_budget({"max": 1, "window": 2}, 5)
+    finally:
+        Budget._prune = orig
+    return [] if r["nviol"] else ["c10 canary (doubled window) not flagged"]
+
+
+def canary_c03():
+    """With the monitor told max_attempts is one lower, the last retry must be flagged."""
+    from . import seq
+    from .kernel import explore
+    from .props import c03
+
+    cfg = seq.mkcfg(M=3, alphabet=["x:T"], max_unknown=None)
+    bad = []
+
+    def run(ch):
+        w = seq.World(cfg, ch)
+        w.call("Retry.execute")
+        return w, c03.monitor(w, dict(cfg, M=2))
+
+    explore(run, 0, lambda ch, r: bad.extend(r[1]))
+    return [] if any(k.startswith("c03.") for k, _ in bad) else ["c03 canary not flagged"]
+
+
+def canary_c15():
+    """If the library stopped guarding on_metric, the differential must notice."""
+    from redress.policy import state as st
+
+    from . import seq
+    from .kernel import explore
+    from .props import c15
+
+    orig = st._RetryState.emit
+
+    def unguarded(self, event, attempt, sleep_s, *a, **kw):
+        if self.on_metric is not None and event == "retry":
+            self.on_metric(event, attempt, sleep_s, {})
+        return orig(self, event, attempt, sleep_s, *a, **kw)
+
+    st._RetryState.emit = unguarded
+    bad = []
+    try:
+        cfg = dict(M=2, alphabet=["x:T"], max_unknown=None)
+        explore(lambda ch: c15.run_diff(cfg, "Retry.execute", ch, "quick"), 0,
+                lambda ch, r: bad.extend(r[1]))
+    finally:
+        st._RetryState.emit = orig
+    del seq
+    return [] if bad else ["c15 canary (unguarded metric hook) not flagged"]
+
+
+def canary_vloop():
+    """The virtual event loop must deliver an attempt timeout and a task cancellation."""
+    from . import seq
+    from .kernel import Chooser
+
+    cfg = seq.mkcfg(M=2, alphabet=["x:T"], durs=[3], attempt_timeout=2, loop=True,
+                    sleeper="call", sleeper_async=True, max_unknown=None)
+    w = seq.World(cfg, Chooser(()))
+    w.call("AsyncRetry.execute")
+    cuts = [r for r in w.trace if r[0] == "op" and r[2] == "cut"]
+    cls = [r for r in w.trace if r[0] == "classify" and r[1] == "foreign:TimeoutError"]
+    return [] if len(cuts) == 2 and len(cls) == 2 else [f"vloop canary: {w.trace}"]
+
+
 def run_all():
     out = []
     for name, fn in sorted(globals().items()):
